@@ -139,7 +139,7 @@ func VerifJustRoundChange() {
 	d := vDef(n)
 	rc := vMsg("rc", n)
 	vrt.Assume(rc.typ == MsgRoundChange)
-	js, jl := vList("j", n, q+1)
+	js, jl := vList("j", n, n)
 	rc.just = asMsgs(js, jl)
 	ok := isJustifiedRoundChange(d, rc)
 	backed := cntDistinct(js, jl, n, MsgPrepare, rc.pr, rc.pv)
@@ -148,8 +148,9 @@ func VerifJustRoundChange() {
 			(jl == 0 && rc.pr == 0 && rc.pv == 0) || backed >= q)
 		vrt.Reach("accepted")
 	}
-	// completeness for honest shapes
-	honest := jl == q && backed == q
+	// completeness for honest shapes: Run attaches every matching PREPARE it knows, one per source (filterByRoundAndValue
+	// over the flattened buffer): a quorum or MORE of distinct-source PREPARE(pr,pv) and nothing else
+	honest := jl >= q && backed == jl
 	if honest {
 		vrt.Assert("honestly built ROUND-CHANGE is accepted", ok)
 		vrt.Reach("honest shape")
@@ -469,6 +470,12 @@ func VerifRun() {
 		Broadcast: func(_ context.Context, typ MsgType, _ int64, source int64, round int64, value int64, pr int64, pv int64, just []hM) error {
 			vrt.Assert("own broadcasts carry the own process id", source == process)
 			log = append(log, vBcast{typ, round, value, pr, pv, len(just)})
+			if typ == MsgRoundChange {
+				// producer/verifier agreement on what Run really sends (the justification is whatever Run collected, not an
+				// idealised "exactly a quorum")
+				own := &hmsg{typ: typ, src: source, round: round, val: value, pr: pr, pv: pv, just: just}
+				vrt.Assert("L12: a ROUND-CHANGE sent by an honest member is accepted as justified by an honest receiver", isJustifiedRoundChange(d, own))
+			}
 			return nil
 		},
 		Receive: recv,
